@@ -462,6 +462,8 @@ class LibMixin:
             return [(st, VBuiltin(f"{type(h).__name__}.{name}", v))]
         if isinstance(v, VStr):
             return [(st, VBuiltin(f"str.{name}", v))]
+        if isinstance(v, (VU, VOpaque)) and self.is_path(v):
+            return self.path_attr(st, v, name)
         if isinstance(v, (VU, VOpaque)):
             if name == "__class__":
                 return [(st, VConst(("classof", v)))]
@@ -491,6 +493,10 @@ class LibMixin:
             return [(st, VBuiltin(f"const.{name}", v))]
         if isinstance(v, VBuiltin) and v.self is None:
             full = f"{v.name}.{name}"
+            if full == "os.path.pardir":
+                return [(st, const(".."))]
+            if full == "os.path.sep":
+                return [(st, const("/"))]
             if full in self.exc_h:
                 return [(st, VExcClass(full))]
             if name in self.exc_h and name[:1].isupper():
